@@ -215,14 +215,11 @@ def decode_impl(t, universe, script, res):
         d = lazy_diff[0]
         assert str(d['id']) == str(int(args[0]['int']))
         items, removed = [], []
-        seen_removed = False
         for u in d['diff']['updates']:
             key = uni.get(json.dumps(lib.canon_micheline(V.norm_out(t, u['key'])), sort_keys=True), ('str', '<<foreign key>>'))
             if 'value' in u:
-                assert not seen_removed, 'set entry after a removal entry'
                 items.append((key, u['key_hash'], int(u['value']['int'])))
             else:
-                seen_removed = True
                 removed.append((key, u['key_hash']))
         return {'obs': obs, 'items': items, 'removed': removed, 'action': d['diff']['action'], 'id': int(d['id']),
                 'has_types': 'key_type' in d['diff'], 'merged': merged}
